@@ -8,6 +8,8 @@
 #include <stdint.h>
 #include "core.h"
 #include "libMultiMarkdown.h"
+#include "d_string.h"
+#include "critic_markup.h"
 
 #define NI __attribute__((no_instrument_function))
 
@@ -16,16 +18,28 @@ static volatile uintptr_t stack_lo = (uintptr_t) -1, stack_hi = 0;
 static volatile unsigned long long blocks = 0;
 static volatile int measuring = 0;
 
+/* frames of one function that are active at the same time: a walker that carries a depth guard never has more than the guard's limit */
+#define FT 8192
+static struct { void * fn; long cur, max; } ft[FT];
+static NI int ft_slot(void * fn) {
+	size_t h = (size_t)((((uintptr_t)fn) >> 3) * 2654435761u) % FT;
+	while (ft[h].fn && ft[h].fn != fn) h = (h + 1) % FT;
+	ft[h].fn = fn;
+	return (int)h;
+}
+
 NI void __cyg_profile_func_enter(void * fn, void * site) {
-	(void)fn; (void)site;
+	(void)site;
 	if (!measuring) return;
+	int fs = ft_slot(fn);
+	if (++ft[fs].cur > ft[fs].max) ft[fs].max = ft[fs].cur;
 	cur_depth++;
 	if (cur_depth > max_depth) max_depth = cur_depth;
 	uintptr_t sp = (uintptr_t) __builtin_frame_address(0);
 	if (sp < stack_lo) stack_lo = sp;
 	if (sp > stack_hi) stack_hi = sp;
 }
-NI void __cyg_profile_func_exit(void * fn, void * site) { (void)fn; (void)site; if (measuring) cur_depth--; }
+NI void __cyg_profile_func_exit(void * fn, void * site) { (void)site; if (measuring) { cur_depth--; ft[ft_slot(fn)].cur--; } }
 NI void __sanitizer_cov_trace_pc_guard_init(uint32_t * start, uint32_t * stop) { for (uint32_t * x = start; x < stop; x++) *x = 1; }
 NI void __sanitizer_cov_trace_pc_guard(uint32_t * guard) { (void)guard; if (measuring) blocks++; }
 
@@ -35,6 +49,15 @@ static NI void * worker(void * p) {
 	static char alt[1 << 16];
 	stack_t ss = { .ss_sp = alt, .ss_size = sizeof alt, .ss_flags = 0 };
 	sigaltstack(&ss, NULL);          /* so that exhausting this thread's stack is reported, not silent */
+	if (j->fmt >= 100) {
+		/* format 101 / 102: the CriticMarkup accept / reject pass on the text (what the command line does for -a / -r before anything is parsed) */
+		DString * d = d_string_new(j->src);
+		measuring = 1;
+		if (j->fmt == 101) mmd_critic_markup_accept(d); else mmd_critic_markup_reject(d);
+		measuring = 0;
+		j->out = d->str; d_string_free(d, false);
+		return NULL;
+	}
 	measuring = 1;
 	j->out = mmd_string_convert(j->src, j->ext, j->fmt, 0);
 	measuring = 0;
@@ -49,6 +72,7 @@ int scen_cost(cmd_t * c) {
 	job_t j = { sb->s, strtoul(a[2].s, NULL, 10), (short)arg_long(&a[1]), NULL };
 	size_t stack = (a[3].n ? (size_t)arg_long(&a[3]) : 8192) * 1024;
 	cur_depth = 0; max_depth = 0; stack_lo = (uintptr_t) -1; stack_hi = 0; blocks = 0;
+	memset(ft, 0, sizeof ft);
 	pthread_attr_t at; pthread_attr_init(&at); pthread_attr_setstacksize(&at, stack);
 	pthread_t th;
 	if (pthread_create(&th, &at, worker, &j)) return 0;
@@ -57,6 +81,17 @@ int scen_cost(cmd_t * c) {
 	ev_int("blocks", (long long)blocks); ev_int("kblocks", (long long)(blocks / 1000)); ev_int("maxdepth", max_depth);
 	ev_int("stackkib", (long long)(stack_hi > stack_lo ? (stack_hi - stack_lo) / 1024 : 0)); ev_int("limitkib", (long long)(stack / 1024));
 	ev_bool("null", j.out == NULL); ev_int("len", j.out ? (long long)strlen(j.out) : 0);
+	{
+		/* functions with more than 1500 frames active at once, as offsets from mmd_string_convert (resolved against the symbol table by the caller) */
+		static char buf[4096]; size_t o = 0; int first = 1;
+		buf[o++] = '[';
+		for (int i = 0; i < FT && o + 64 < sizeof buf; i++) if (ft[i].fn && ft[i].max > 1500) {
+			o += (size_t)snprintf(buf + o, sizeof buf - o, "%s[%lld,%ld]", first ? "" : ",", (long long)((intptr_t)ft[i].fn - (intptr_t)&mmd_string_convert), ft[i].max);
+			first = 0;
+		}
+		buf[o++] = ']'; buf[o] = 0;
+		ev_raw("deep", buf);
+	}
 	ev_end();
 	free(j.out);
 	return 1;
